@@ -82,6 +82,8 @@ class AlgebraicReductionRule(AbstractNaryRule):
                     new_ops = rule.apply(left, right)
                 except NoReduction:
                     continue
+                # a rule may itself yield an identity (e.g. block operators whose blocks cancel)
+                new_ops = identity_rule.apply(new_ops)
                 operands[index : index + 2] = new_ops
 
                 # if the rule produces a HomothetyOperator, we deal with it first
